@@ -95,12 +95,18 @@ Definition isize_max : Z := 9223372036854775807.
 Definition isize_min : Z := (-9223372036854775808)%Z.
 Definition sat_add_isize (a b : Z) : Z := Z.max isize_min (Z.min isize_max (a + b)).
 
+(* whole bytes of rate * time, time counted from the start of the connection *)
+Definition accrued (rate : N) (t_ms : N) : Z :=
+  f_floor_to_isize (PrimFloat.mul (f_of_N rate) (ms_as_secs_f64 t_ms)).
+
+(* credit gained between two instants at one rate *)
+Definition refill (rate : N) (last now_ms : N) : Z := (accrued rate now_ms - accrued rate last)%Z.
+
 Definition hc_fill_flush_alloc (h : hc) (now_ms : N) : Z :=
   match h_last_flushed h with
   | Some last =>
       let send_rate := f_of_N (sr_rate (h_src h)) in
-      let delta := ms_as_secs_f64 (now_ms - last) in
-      let new_bytes := f_round_to_isize (PrimFloat.mul send_rate delta) in
+      let new_bytes := refill (sr_rate (h_src h)) last now_ms in
       let alloc_max := f_round_to_isize (PrimFloat.mul send_rate (opt_default f0 (sr_rtt_s (h_src h)))) in
       Z.min (sat_add_isize (h_credit h) new_bytes) alloc_max
   | None => h_credit h
